@@ -656,6 +656,22 @@ func linesRandLine(rnd *rand.Rand, option bool, cond int) []linesItem {
 		}
 		items = append(items, it)
 	}
+	if rnd.Intn(8) == 0 {
+		// literal text that looks like the index of an inline expression - escaped braces around a
+		// digit - on a line that has at least that many inline expressions, some of whose values
+		// look like such an index themselves
+		k := rnd.Intn(3)
+		seq := []linesItem{linesCh("es", '{'), linesCh("o", rune('0'+k)), linesCh("es", '}')}
+		pos := rnd.Intn(len(items) + 1)
+		items = append(items[:pos:pos], append(seq, items[pos:]...)...)
+		for j := 0; j <= k; j++ {
+			v := linesRandValue(rnd)
+			if rnd.Intn(3) == 0 {
+				v = linesStr(linesPick(rnd, []string{"{0}", "{1}", "{2}", "{3}"}))
+			}
+			items = append(items, linesCh("sp", ' '), linesItem{C: "x", S: []int{}, V: v})
+		}
+	}
 	sp := func() {
 		for k := rnd.Intn(3); k > 0; k-- {
 			items = append(items, linesCh("sp", ' '))
